@@ -292,51 +292,119 @@ func checkC13(c *Ctx, r *Report) {
 				ctxp = p
 			}
 		}
-		check := func(io ssa.Instruction, kind string, deadlineFns []string) {
-			// deadline calls fed from ctxp.Deadline()
-			avoidB := map[*ssa.BasicBlock]bool{}
-			avoidE := map[edge]bool{}
-			viewInstrs(send, func(in ssa.Instruction) {
-				if isCallTo(in, deadlineFns...) {
-					args := callArgs(asCall(in))
-					if len(args) == 1 {
-						if ex, ok := args[0].(*ssa.Extract); ok && ex.Index == 0 {
-							if dc, ok := ex.Tuple.(*ssa.Call); ok && dc.Call.IsInvoke() && dc.Call.Method.Name() == "Deadline" && viewVal(send, dc.Call.Value) == ssa.Value(ctxp) {
-								if in.Block() != io.Block() || instrIndex(in) < instrIndex(io) {
-									avoidB[in.Block()] = true
-								}
+		// Decided per feasible path of Send's flattened view: between a blocking socket call and
+		// the previous one (or the start) the path either called the matching deadline setter with
+		// ctx.Deadline()'s time, or took the arm on which the context has no deadline. The setter
+		// may be called directly or through a function value handed to a helper
+		// (`applyDeadline(ctx, conn.SetWriteDeadline)`): the callee is resolved on the path.
+		calleeOn := func(p CPath, oc OccPos) string {
+			cc := asCall(oc.In)
+			if cc == nil {
+				return ""
+			}
+			if n := calleeName(cc); n != "" && (cc.IsInvoke() || cc.StaticCallee() != nil) {
+				return n
+			}
+			if mc, ok := p.Upto(oc.Seg).ResolveIn(oc.Ctx, cc.Value).(*ssa.MakeClosure); ok {
+				if f, ok := mc.Fn.(*ssa.Function); ok {
+					return strings.TrimSuffix(f.String(), "$bound")
+				}
+			}
+			return ""
+		}
+		isOneOf := func(n string, names []string) bool {
+			for _, x := range names {
+				if n == x {
+					return true
+				}
+			}
+			return false
+		}
+		okIO := map[string]bool{"write": true, "read": true}
+		nIOk := map[string]int{}
+		posIO := map[string]token.Pos{}
+		completeS := enumPaths(send, 2, 200000, func(p CPath) {
+			occs := p.OccsPos()
+			// the ctx.Deadline() calls on the ctx parameter, by position
+			isDeadlineOfCtx := func(v ssa.Value, at int) (*ssa.Call, bool) {
+				ex, ok := v.(*ssa.Extract)
+				if !ok {
+					return nil, false
+				}
+				dc, ok := ex.Tuple.(*ssa.Call)
+				if !ok || !dc.Call.IsInvoke() || dc.Call.Method.Name() != "Deadline" {
+					return nil, false
+				}
+				pos := lastOcc(occs, at, dc)
+				if pos < 0 {
+					return nil, false
+				}
+				if p.Upto(occs[pos].Seg).ResolveIn(occs[pos].Ctx, dc.Call.Value) != ssa.Value(ctxp) {
+					return nil, false
+				}
+				return dc, true
+			}
+			facts := p.boolFacts()
+			prevIO := -1
+			for i, oc := range occs {
+				n := calleeOn(p, oc)
+				kind := ""
+				var setters []string
+				switch {
+				case isOneOf(n, sockWrites):
+					kind, setters = "write", sockWriteDeadline
+				case isOneOf(n, sockReads):
+					kind, setters = "read", sockReadDeadline
+				default:
+					continue
+				}
+				nIOk[kind]++
+				posIO[kind] = oc.In.Pos()
+				good := false
+				for j := i - 1; j > prevIO && !good; j-- {
+					if !isOneOf(calleeOn(p, occs[j]), setters) {
+						continue
+					}
+					args := callArgs(asCall(occs[j].In))
+					if len(args) != 1 {
+						continue
+					}
+					av := p.Upto(occs[j].Seg).ResolveIn(occs[j].Ctx, args[0])
+					if ex, ok := av.(*ssa.Extract); ok && ex.Index == 0 {
+						if _, ok := isDeadlineOfCtx(ex, j); ok {
+							good = true
+						}
+					}
+				}
+				if !good {
+					// the context has no deadline on this path
+					for _, bf := range facts {
+						ex, ok := bf.V.(*ssa.Extract)
+						if !ok || ex.Index != 1 || bf.True {
+							continue
+						}
+						at := lastOcc(occs, i, ex)
+						if at > prevIO && at < i {
+							if _, ok := isDeadlineOfCtx(ex, at); ok {
+								good = true
 							}
 						}
 					}
 				}
-			})
-			for _, ifi := range viewIfs(send) {
-				if ex, ok := ifi.Cond.(*ssa.Extract); ok && ex.Index == 1 {
-					if dc, ok := ex.Tuple.(*ssa.Call); ok && dc.Call.IsInvoke() && dc.Call.Method.Name() == "Deadline" && viewVal(send, dc.Call.Value) == ssa.Value(ctxp) {
-						avoidE[edge{ifi.Block(), ifi.Block().Succs[1]}] = true
-					}
+				if !good {
+					okIO[kind] = false
 				}
-			}
-			okk := len(avoidB) > 0
-			if avoidB[io.Block()] {
-				// same block and earlier: fine
-			} else if reachAvoiding(send, nil, avoidB, avoidE)[io.Block()] {
-				okk = false
-			}
-			// the deadline test must itself follow any earlier I/O of the other kind: the deadline call must come after the previous blocking call? not required.
-			r.Check(okk, name+"|"+kind, io.Pos(), "deadline set from ctx before the call on every path", "socket "+kind+" can be reached without the "+kind+" deadline having been set from the context (blocks past the deadline)")
-		}
-		nIO := 0
-		viewInstrs(send, func(in ssa.Instruction) {
-			if isCallTo(in, sockWrites...) {
-				nIO++
-				check(in, "write", sockWriteDeadline)
-			}
-			if isCallTo(in, sockReads...) {
-				nIO++
-				check(in, "read", sockReadDeadline)
+				prevIO = i
 			}
 		})
+		nIO := 0
+		for _, kind := range []string{"write", "read"} {
+			if nIOk[kind] == 0 {
+				continue
+			}
+			nIO++
+			r.Check(okIO[kind] && completeS, name+"|"+kind, posIO[kind], "deadline set from ctx before the call on every path", "socket "+kind+" can be reached without the "+kind+" deadline having been set from the context (blocks past the deadline)")
+		}
 		if nIO < 2 {
 			r.Unk(name+"|socket calls", send.Pos(), fmt.Sprintf("found %d socket I/O calls, expected a write and a read", nIO))
 		}
@@ -376,7 +444,27 @@ func checkC13(c *Ctx, r *Report) {
 		why := "back-off is not wrapped with backoff.WithContext"
 		if len(rs.Call.Call.Args) == 2 {
 			if call, isCall := stripConv(rs.Call.Call.Args[1]).(*ssa.Call); isCall && isCallTo(call, fnBackoffWithCtx) {
-				switch p := ctxProvenance(rs.Parent, call.Call.Args[1]); p {
+				// the Retry call may sit in a helper the site's function calls with its own context
+				// (`retry(ctx, op)`): the helper's parameter is read as the argument it received
+				cv := call.Call.Args[1]
+				owner := rs.Call.Parent()
+				for i := 0; i < 4 && owner != rs.Parent; i++ {
+					prm, isPrm := stripConv(cv).(*ssa.Parameter)
+					if !isPrm || prm.Parent() != owner {
+						break
+					}
+					nv := flatOf(rs.Parent).Val(prm)
+					if nv == ssa.Value(prm) {
+						break
+					}
+					cv = nv
+					if in, isIn := nv.(ssa.Instruction); isIn {
+						owner = in.Parent()
+					} else if p2, isP := nv.(*ssa.Parameter); isP {
+						owner = p2.Parent()
+					}
+				}
+				switch p := ctxProvenance(rs.Parent, cv); p {
 				case "param":
 					ok = true
 				default:
